@@ -60,6 +60,7 @@ CFG = {
     "packages": {"kotlin": {"package": "com.example.app", "module_name": "mod"}, "scala": {"package": "com.example.app", "module_name": "types"},
                  "go": {"package": "main", "uppercase_acronyms": ["ID", "URL"], "no_pointer_slice": True}},
     "packages_single": {"kotlin": {"package": "app", "module_name": "mod"}, "scala": {"package": "app", "module_name": "types"}, "go": {"package": "app"}},
+    "ts_special_mapped": {"typescript": {"type_mappings": {"OffsetDateTime": "Date", "Vec<u8>": "Uint8Array"}}, "python": {"type_mappings": {"Vec<u8>": "bytes"}}},
     "swift_defaults": {"swift": {"default_decorators": ["Sendable", "Identifiable"], "default_generic_constraints": ["Sendable"], "codablevoid_constraints": ["Equatable"]}},
     "header": {l: {"version_header": True} for l in common.LANGS},
     "folder": {},
@@ -435,8 +436,6 @@ def after_earlier_output(chk, work):
     args_for = {"typescript": [], "kotlin": ["--java-package", "com.x"], "swift": [], "scala": ["--scala-package", "com.x"], "go": ["--go-package", "p"], "python": []}
     events, meta, pyfiles = [], [], []
     for k, c in enumerate(res.replays):
-        if c["lang"] == "go" and c["mode"] == "multi":
-            continue          # Go has no folder mode
         d = os.path.join(work, f"rr{k}")
         out = os.path.join(d, "out")
         os.makedirs(out)
